@@ -254,7 +254,7 @@ func c05WholeRun(t *testing.T, s *sim.Scn) *sim.Outcome {
 func c05WholeGen(r *rand.Rand, tier string) *sim.Scn {
 	s := &sim.Scn{Cfg: map[string]int64{"whole": 1, "bt": []int64{200, 500, 1000}[r.IntN(3)], "dat": []int64{1000, 2000}[r.IntN(2)], "p2pcut": r.Int64N(2),
 		"lead": []int64{0, 1000, 5000, 12000}[r.IntN(4)], "warm": []int64{0, 300, 1500, 4000}[r.IntN(4)], "txs": r.Int64N(3), "linkms": r.Int64N(40),
-		"k0": r.Int64N(3), "kstep": 1 + r.Int64N(4)}}
+		"k0": r.Int64N(3), "kstep": 1 + r.Int64N(4), "eager": r.Int64N(2)}}
 	if tier == "thorough" {
 		s.Cfg["kstep"] = 1
 		s.Cfg["k0"] = 0
